@@ -25,7 +25,14 @@ def faultOf? (j : Json) : Option Fault := do
     let h ← jOpt? jInt? h
     let p ← jStr? p >>= payloadOf?
     let d ← jOpt? jInt? d
-    some (.http ⟨st, h, p, d⟩)
+    some (.http ⟨st, h, false, p, d⟩)
+  | [.str "http", st, h, p, d, bad] =>
+    let st ← jNat? st
+    let h ← jOpt? jInt? h
+    let p ← jStr? p >>= payloadOf?
+    let d ← jOpt? jInt? d
+    let bad ← jBool? bad
+    some (.http ⟨st, h, bad, p, d⟩)
   | [.str "exc", a, b, c, d, e] =>
     some (.exc (← jBool? a) (← jBool? b) (← jBool? c) (← jBool? d) (← jBool? e))
   | _ => none
